@@ -76,6 +76,8 @@ class C18:
         known = set(kcapture.dispatchers())
         if found != known:
             raise RuntimeError(f"prange kernels without a capture site: {sorted(found - known)} / stale: {sorted(known - found)}")
+        for d in kcapture.dispatchers().values():
+            prange_sim.transform(d)
 
     # -----------------------------------------------------------------------------------------------------------
     def generate(self, rnd, index, tier):
